@@ -27,3 +27,13 @@ Example quotient_and_power :
   option_map (map (fun kx => (fst kx, this (snd kx)))) (qjac ss 0%nat e) = Some [((1, 0)%Z, (1 # 4)%Q)] /\
   option_map (map (fun kx => (fst kx, this (snd kx)))) (qjac ss 1%nat e) = Some [((0, 0)%Z, ((-3) # 4)%Q)].
 Proof. vm_compute. split; reflexivity. Qed.
+
+(** an applied function: y = (x0 * x1(-1)).apply(f) with f(x) = x^2/2 + x and the symmetric quotient with step 1/1024 as supplied derivative:
+    the quotient of a quadratic is its exact derivative x + 1, so at x0 = 3, x1 = 2 (argument 6): dy_t/dx0_t = 7 * 2 = 14, dy_t/dx1_{t-1} = 7 * 3 = 21 *)
+Example applied_function :
+  let ss := fun x : nat => match x with O => Q2Qc 3 | _ => Q2Qc 2 end in
+  let f := fun x : Qc => Qcplus (Qcmult (Qcmult x x) (Q2Qc (1 # 2))) x in
+  let e := EApp f (fun x => Qcdiv (Qcminus (f (Qcplus x (Q2Qc (1 # 1024)))) (f (Qcminus x (Q2Qc (1 # 1024))))) (Qcmult (Q2Qc 2) (Q2Qc (1 # 1024)))) (EMul (EVar 0) (EShift (-1) (EVar 1))) in
+  option_map (map (fun kx => (fst kx, this (snd kx)))) (qjac ss 0%nat e) = Some [((0, 0)%Z, (14 # 1)%Q)] /\
+  option_map (map (fun kx => (fst kx, this (snd kx)))) (qjac ss 1%nat e) = Some [((-1, 0)%Z, (21 # 1)%Q)].
+Proof. vm_compute. split; reflexivity. Qed.
